@@ -37,9 +37,10 @@ def run_twice(sub, scen, jobs=None):
     def one(part):
         text = "".join(f"begin {n}.a\n" + "".join(x + "\n" for x in ls) + "end\n" + f"begin {n}.b\n" + "".join(x + "\n" for x in ls) + "end\n"
                        for n, ls in part)
-        p1 = subprocess.run([VH, sub], input=text, capture_output=True, text=True, env=ENV, timeout=3600)
+        env = dict(ENV, VH_RAW_ORDER="1")
+        p1 = subprocess.run([VH, sub], input=text, capture_output=True, text=True, env=env, timeout=3600)
         text2 = "".join(f"begin {n}.c\n" + "".join(x + "\n" for x in ls) + "end\n" for n, ls in part)
-        p2 = subprocess.run([VH, sub], input=text2, capture_output=True, text=True, env=ENV, timeout=3600)
+        p2 = subprocess.run([VH, sub], input=text2, capture_output=True, text=True, env=env, timeout=3600)
         return split_blocks(p1.stdout), split_blocks(p2.stdout)
 
     res = {}
@@ -58,6 +59,9 @@ def run(v, tier, seed, name="replay"):
     nsim = 200 if tier == "quick" else 5000
     mc_scen = mc_suite.corpus_scenarios("c01") + [(f"m{i}", gen_mc(rng)) for i in range(nmc)]
     sim_scen = [(f"s{i}", sim_suite.gen_scenario(rng, dict(procs=(3, 6), p_rand=0.4, p_clock=0.3, p_crash=0.5))) for i in range(nsim)]
+    # crash of a node with several messages and timers in flight from/to it: everything the crash logs and cancels is
+    # collected from hash containers and queues
+    sim_scen += [(f"cb{i}", sim_suite.gen_crash_burst(rng)) for i in range(nsim // 2)]
     nviol = 0
     nontriv = set()
     evals = 0
